@@ -259,6 +259,14 @@ def _prof_layout(g, n):
                 if g.chance(0.2):
                     f["access"] = g.pick(["RW", "RO", "WO"])
                 fields.append(f)
+        # (round 12, P07) fields with a cfg of their own are validated like any other: on a quarter of the sets the
+        # questionable field (the last one) - or every second field - is gated
+        if fields and g.chance(0.25):
+            if g.chance(0.6):
+                fields[-1]["cfg"] = g.pick(["chip_a", "unix", "not(chip_b)"])
+            else:
+                for f in fields[::2]:
+                    f["cfg"] = g.pick(["chip_a", "unix"])
         cfg = {"register_address_type": "u8", "command_address_type": "u8"}
         bo_where = g.pick(["object", "global", "none", "object", "global"])
         if bo_where == "global":
@@ -623,6 +631,12 @@ def _prof_reset(g, tier):
                                 # an override that happens to equal the target's own value is still an override:
                                 # the ref gets its own constructor
                                 ov["reset"] = json.loads(json.dumps(tgt["reset"]))
+                        # (round 12, P02) the access of the target and of the ref are independent of the reset override: a
+                        # writable ref of a read-only register still starts its write from its own reset value
+                        if g.chance(0.5):
+                            tgt.setdefault("access", g.pick(["RO", "RO", "RW", "WO"]))
+                            if g.chance(0.8):
+                                ov["access"] = g.pick(["RW", "WO", "RO"])
                         regs.append({"kind": "ref", "name": "Alias%d" % i, "target": tgt["name"], "override": ov})
                     cfg = {"register_address_type": "u16"}
                     ints = [int(r["reset"]["int"]) for r in regs if "int" in (r.get("reset") or {})]
